@@ -4,6 +4,7 @@ import (
 	"bytes"
 	"fmt"
 	"io"
+	"time"
 
 	"github.com/biogo/hts/bgzf"
 	"pgregory.net/rapid"
@@ -113,9 +114,9 @@ func (m *RModel) BlockLen() int {
 // Stats collected while running a history.
 type RStats struct {
 	Seeks, CrossReads, AfterEnd, Replays, BlockedEOF int
-	SeekThenCross                                 bool
-	WantTrace                                     bool
-	Trace                                         []string // LastChunk/BlockLen after every op
+	SeekThenCross                                    bool
+	WantTrace                                        bool
+	Trace                                            []string // LastChunk/BlockLen after every op
 }
 
 // Hook lets a property act on its own op kinds; it returns a violation message.
@@ -208,6 +209,27 @@ func RunHistory(r *bgzf.Reader, f *File, ops []ROp, hook Hook, cur func(string),
 			r.Blocked, m.Blocked = true, true
 		case "unblocked":
 			r.Blocked, m.Blocked = false, false
+		case "settle":
+			// let read-ahead workers reach their steady state (queue filled, parked)
+			time.Sleep(time.Duration(1+op.N%4) * time.Millisecond)
+		case "seekend":
+			// Seek to the end of the file, where no member starts. The outcome is
+			// not modelled; it is recorded so that two runs of the same history can
+			// be compared, and the reader is brought back with a Seek to the start.
+			what := fmt.Sprintf("op %d Seek(end of file)", i)
+			note(what)
+			err := r.Seek(bgzf.Offset{File: int64(len(f.Bytes))})
+			if st != nil && st.WantTrace {
+				st.Trace = append(st.Trace, fmt.Sprintf("seek to the end of the file: %v", err))
+			}
+			what = fmt.Sprintf("op %d Seek(start) after Seek(end of file)", i)
+			note(what)
+			off := bgzf.Offset{File: f.Members[0].Base}
+			if err := r.Seek(off); err != nil {
+				return fmt.Sprintf("%s: %v", what, err)
+			}
+			m.Seek(0, 0)
+			haveLast = false
 		case "seek":
 			k := op.M % len(f.Members)
 			o := op.O % (f.Members[k].Len + 1)
